@@ -100,6 +100,13 @@ func specOutstanding(a *Association, tsn uint32) bool {
 //@ func Association.processSelectiveAck
 //@   requires#decoded-chunk selectiveAckChunk != nil
 //@   at call rtoManager.setNewRTT assert#karn-only-first-transmissions{C19} chunkPayload.nSent == 1
+//@   loop 2 invariant#fast-recovery-ends-at-its-exit-point{C10} a.cumulativeTSNAckPoint == old(a.cumulativeTSNAckPoint) && a.fastRecoverExitPoint == old(a.fastRecoverExitPoint) &&
+//@      (selectiveAckChunk.cumulativeTSNAck-a.cumulativeTSNAckPoint < 1<<31 ==>
+//@         idx-a.cumulativeTSNAckPoint >= 1 && idx-a.cumulativeTSNAckPoint <= selectiveAckChunk.cumulativeTSNAck-a.cumulativeTSNAckPoint+1 &&
+//@         (a.fastRecoverExitPoint-a.cumulativeTSNAckPoint >= 1 && a.fastRecoverExitPoint-a.cumulativeTSNAckPoint < idx-a.cumulativeTSNAckPoint ==> !a.inFastRecovery))
+//@   ensures#fast-recovery-ends-once-its-exit-point-is-acknowledged{C10} err == nil && old(a.fastRecoverExitPoint-a.cumulativeTSNAckPoint) >= 1 &&
+//@      old(a.fastRecoverExitPoint-a.cumulativeTSNAckPoint) <= old(selectiveAckChunk.cumulativeTSNAck-a.cumulativeTSNAckPoint) &&
+//@      old(selectiveAckChunk.cumulativeTSNAck-a.cumulativeTSNAckPoint) < 1<<31 ==> !a.inFastRecovery
 //@   loop 2 atend assert#every-newly-acknowledged-chunk-is-credited-to-its-stream{C15} ok && chunkPayload != nil && !iterStart(chunkPayload.acked) ==>
 //@      bytesAckedPerStream[chunkPayload.streamIdentifier] == iterStart(bytesAckedPerStream[chunkPayload.streamIdentifier])+len(iterStart(chunkPayload.userData))
 //@   loop 1 atend assert#both-ends-of-every-gap-block-are-outstanding{C03} gap.start >= 1 && gap.start <= gap.end &&
@@ -248,6 +255,9 @@ func specOutstanding(a *Association, tsn uint32) bool {
 //@   loop 1 atend assert#unread-bytes-stay-in-the-advertised-window{C11} !ok || s.reassemblyQueue.nBytes == 0
 
 //@ func Association.resetOutgoingStreamSequenceNumbers
+//@   assume#registered-streams-are-real forall k uint16 :: has(a.streams, k) ==> a.streams[k] != nil
+//@   assume#stored-requests-hold-real-parameters forall k uint32 :: a.reconfigs[k] != nil ==> holdsNonNil(a.reconfigs[k].paramA)
+//@   safety C03
 //@   at call Stream.resetOutgoingStreamSequenceNumbers assert#only-streams-of-the-acknowledged-request{C14} reconfig != nil && ok
 
 // ---- C06: partial-reliability decision ----
